@@ -57,7 +57,9 @@ func TestVerifC14Banner(t *testing.T) {
 		"http://verif.example:8080/page", "http://verif.example:9090/page", "https://verif.example:8080/page?q=1", "http://verif.example:8080/other"}
 	targets := []string{"http://verif.example/page?x=1&y=<z>", "http://verif.example/page?x=1&y=<z>", "http://verif.example:8080/page?x=1&y=<z>", "http://verif.example:8080/page"}
 	statuses := []int{200, 200, 200, 201, 204, 301, 304, 404, 500}
-	ctypes := []string{"", "text/html", "text/html; charset=utf-8", "application/xhtml+xml", "application/json", "text/plain", "TEXT/HTML", "image/png", "text/htmlish"}
+	ctypes := []string{"", "text/html", "text/html; charset=utf-8", "application/xhtml+xml", "application/json", "text/plain", "TEXT/HTML", "image/png", "text/htmlish",
+		// types that mention html without being an HTML document type
+		"application/vnd.ms-htmlhelp", "text/plain; name=\"notes.html\"", "application/octet-stream; name=index.html.gz", "application/vnd.acme.htmlfragment+json"}
 	cdisps := []string{"", "", "inline", "attachment; filename=x.html", "ATTACHMENT", "form-data; name=attachment",
 		// attachment dispositions whose parameters a strict parser rejects
 		"attachment; filename=My Report.html", "attachment; filename=report (1).html", "attachment;filename=", "attachment; filename=\"a.html\"; filename=\"b.html\"", "attachment; filename=r\xc3\xa9sum\xc3\xa9.html", "attachment;", "inline; filename=attachment.html"}
